@@ -105,6 +105,14 @@ MUTANTS = [
     ('calls', INSTR, '            // A method call is a call: count the tick like `call_method_common` does.\n            eval.report_forward_progress()?;\n', '', 'C15.calls.known_method_call_ticks'),
     ('calls', INSTR, '    ) -> crate::Result<()> {\n        eval.report_forward_progress()?;\n        let arguments = args.pop_from_stack(frame);\n        let r = eval.with_call_stack(', '    ) -> crate::Result<()> {\n        let arguments = args.pop_from_stack(frame);\n        let r = eval.with_call_stack(', 'C15.calls.frozen_def_call_ticks'),
     ('calls', INSTR, '        if let Err(e) = eval.report_forward_progress() {\n            return InstrControl::Err(e);\n        }\n', '', 'C15.calls.loop_backedge_ticks'),
+    ('calls', INSTR, '            // A method call is a call: count the tick like `call_method_common` does.\n            eval.report_forward_progress()?;\n', '            eval.report_forward_progress()?;\n            eval.report_forward_progress()?;\n', 'C15.calls.known_method_call.once'),
+    ('calls', INSTR, '        if let Err(e) = eval.report_forward_progress() {\n            return InstrControl::Err(e);\n        }\n', '        if let Err(e) = eval.report_forward_progress() {\n            return InstrControl::Err(e);\n        }\n        if let Err(e) = eval.report_forward_progress() {\n            return InstrControl::Err(e);\n        }\n', 'C15.calls.loop_backedge.once'),
+    ('numcmp', NUM, '(Some(i), _) => i as u64,', '(Some(i), _) => i as u32 as u64,', 'C09.hash64.pin'),
+    ('numcmp', NUM, '            } else if f == 0.0 {\n                // Both 0.0', '            } else if f == 1.0 {\n                // Both 0.0', 'C09.hash64.pin'),
+    ('numcmp', NUM, '            Self::Int(i) => i.to_i32(),\n            Self::Float(f) => Self::f64_to_i32_exact(f.0),', '            Self::Int(_) => None,\n            Self::Float(f) => Self::f64_to_i32_exact(f.0),', 'C09.hash64.as_int'),
+    ('numcmp', NUM, 'float_hash(b.to_f64())', 'b.to_f64().to_bits() ^ 1', 'C09.hash64.pin'),
+    ('prec', PRD, 'if self.peek() == Some(&Token::Not) && min_bp <= 5 {', 'if self.peek() == Some(&Token::Not) && min_bp <= 6 {', 'C06.pratt.parse_expr.not_prefix_level'),
+    ('prec', PRD, 'if self.peek() == Some(&Token::Not) && min_bp <= 5 {', 'if self.peek() == Some(&Token::Not) {', 'C06.pratt.parse_expr.not_prefix_level'),
     ('calls', INSTR, '        eval.with_call_stack(self.to_value(), Some(location), |eval| {\n            self.invoke(args, eval)\n        })', '        self.invoke(args, eval)', 'bc_invoke'),
     ('calls', 'starlark/src/values/layout/value.rs', '        eval.with_call_stack(self, location, |eval| {\n            self.get_ref_full().invoke(args, eval)\n        })', '        self.get_ref_full().invoke(args, eval)', 'invoke_with_loc'),
     ('strindex', STRT, 'let ind = CharIndex(i.unsigned_abs() as usize);', 'let ind = CharIndex((-i) as usize);', 'at'),
